@@ -24,6 +24,7 @@ CONSTANTS Thieves, OwnerProg, NSteal, Cap, H0init, Owner
     S_h: H := head;                                 \* head.load under lock; then compaction (plain accesses)
         T1 := 0; k := H;
         RL: while (k < T) { if (pool[k] # 0) { pool[T1] := pool[k]; T1 := T1 + 1 }; k := k + 1 };
+    S_cl: skip;                                     \* fill_with_canary_pattern(T1, tail): the argument is a load of tail (the function is empty in release builds)
     S_c1: head := 0;
     S_c2: tail := T1;
     S_c3: x := lock;                                \* release_task_pool: load
@@ -177,10 +178,16 @@ RL == /\ pc[Owner] = "RL"
                             /\ UNCHANGED << pool, T1 >>
                  /\ k' = k + 1
                  /\ pc' = [pc EXCEPT ![Owner] = "RL"]
-            ELSE /\ pc' = [pc EXCEPT ![Owner] = "S_c1"]
+            ELSE /\ pc' = [pc EXCEPT ![Owner] = "S_cl"]
                  /\ UNCHANGED << pool, T1, k >>
       /\ UNCHANGED << head, tail, lock, got, i, T, T0, H, x, res, empty, n, vp, 
                       h, h0, tl, r >>
+
+S_cl == /\ pc[Owner] = "S_cl"
+        /\ TRUE
+        /\ pc' = [pc EXCEPT ![Owner] = "S_c1"]
+        /\ UNCHANGED << head, tail, lock, pool, got, i, T, T0, H, x, res, 
+                        empty, T1, k, n, vp, h, h0, tl, r >>
 
 S_c1 == /\ pc[Owner] = "S_c1"
         /\ head' = 0
@@ -363,10 +370,10 @@ OFin == /\ pc[Owner] = "OFin"
         /\ UNCHANGED << head, tail, lock, pool, got, T, T0, H, x, res, empty, 
                         T1, k, n, vp, h, h0, tl, r >>
 
-owner == OLoop \/ S1 \/ A1 \/ A2 \/ A3 \/ S_h \/ RL \/ S_c1 \/ S_c2 \/ S_c3
-            \/ S_c4 \/ S_tail \/ S_pub \/ S_pub2 \/ G0 \/ G0b \/ G1 \/ G2
-            \/ B1 \/ B2 \/ B3 \/ G3 \/ G4 \/ G5 \/ G6 \/ G7 \/ G8 \/ G9
-            \/ GRet \/ OFin
+owner == OLoop \/ S1 \/ A1 \/ A2 \/ A3 \/ S_h \/ RL \/ S_cl \/ S_c1 \/ S_c2
+            \/ S_c3 \/ S_c4 \/ S_tail \/ S_pub \/ S_pub2 \/ G0 \/ G0b \/ G1
+            \/ G2 \/ B1 \/ B2 \/ B3 \/ G3 \/ G4 \/ G5 \/ G6 \/ G7 \/ G8
+            \/ G9 \/ GRet \/ OFin
 
 TLoop(self) == /\ pc[self] = "TLoop"
                /\ IF n[self] <= NSteal
